@@ -240,6 +240,27 @@ namespace {
         }
         ops.push(std::move(op));
       }
+      // directed scenario (swarm bias): two actors start with use() of the shared file, one of them
+      // calls what the file defines right after its use() returned
+      if (plan.chance(300)) {
+        const int x = int(plan.below(uint64_t(T)));
+        const int y = (x + 1 + int(plan.below(uint64_t(T - 1)))) % T;
+        J front = J::array();
+        auto mk = [&](int a, const char *k) {
+          J op = J::object();
+          op["a"] = J(a);
+          op["k"] = J(k);
+          op["via"] = J(int(plan.below(2)));
+          return op;
+        };
+        front.push(mk(x, "use"));
+        front.push(mk(y, "use"));
+        front.push(mk(y, "calluse"));
+        for (size_t i = 0; i < ops.size(); ++i) {
+          front.push(ops[i]);
+        }
+        ops = front;
+      }
       p["sched"] = gen_sched(sched, T, uint64_t(ops.size()) * 6);
       return p;
     }
@@ -253,7 +274,16 @@ namespace {
       // ---- setup on main (happens-before every actor through thread creation)
       const std::string dir = run_dir() + "/c13/";
       ::mkdir(dir.c_str(), 0777);
-      write_file(dir + "shared_use.chai", "bump();\ndef from_use(x) { x + 1000 }\n");
+      // a long file: many registrations (= lock points) between the start of its evaluation and the
+      // definition the callers wait for
+      {
+        std::string body = "bump();\n";
+        for (int i = 0; i < 8; ++i) {
+          body += "def use_pad_" + std::to_string(i) + "(x) { x }\n";
+        }
+        body += "def from_use(x) { x + 1000 }\n";
+        write_file(dir + "shared_use.chai", body);
+      }
       // file calls of use() under this directory become scheduling points (no faults injected here)
       fl_reset();
       fl_track_prefix(dir.c_str());
